@@ -43,6 +43,10 @@ BIASED_HAND = [
     'r = { ((((a)))) ~ (((a | (b))))? }\na = { "a" }\nb = { "b" }',
     'r = { a ~ b ~ a ~ b ~ a ~ b ~ a ~ b ~ a ~ b ~ a ~ b ~ a }\na = { "a" }\nb = { "b"? }',
     'r = { (a | b | c | a | b | c | a | b | c | a | b | c | a)* }\na = { "a" ~ "1" }\nb = { "a" ~ "2" }\nc = { "a" }',
+    # an optional directly under PUSH / & (content edges), itself under an optional or an alternative
+    'r = { (PUSH(a?) ~ "!")? ~ "." }\nr2 = { (&(a?) ~ "!")? ~ "." }\nr3 = { &(a?) ~ "!" | b }\nr4 = { (PUSH(&(a?))? ~ "!")* ~ (PUSH(a*))? }\na = { "a" }\nb = { "b" }',
+    # a name shared by alternatives of different sizes (join order), no common prefix
+    'r = { "a" ~ x | "b" ~ x ~ y }\ns = { "a" ~ x | "b" ~ y ~ x | "c" ~ x ~ y ~ z }\nt = { ("a" ~ x ~ y ~ z | "b" ~ y | "c" ~ z ~ x)* }\nx = { "x" }\ny = { "y" }\nz = { "z" }',
 ]
 
 NAMES_POOL = ["a", "b", "c"]
@@ -76,11 +80,11 @@ def biased_expr(rng, depth, names, stacky):
         return inner + "*"
     if r < 86:
         return inner + "+"
-    if r < 89:
+    if r < 88:
         return inner + rng.choice(["{2}", "{1,}", "{,2}", "{1,2}"])
     if r < 93:
         return "&" + inner
-    if r < 96:
+    if r < 95:
         return "!" + inner
     if stacky:
         return "PUSH(" + inner + ")"
@@ -91,7 +95,7 @@ def biased_grammar(rng):
     """1-3 top rules over the pool a, b, c (defined in several kinds); later top rules may be mentioned by earlier ones"""
     n = 1 + rng.below(3)
     tops = ["r%d" % i for i in range(n)]
-    stacky = rng.chance(1, 4)
+    stacky = rng.chance(1, 2)
     lines = []
     ws = rng.below(5)
     if ws == 1:
